@@ -138,7 +138,7 @@ def check_C09(ctx, rep):
             tr = H.tree_of(f, b, "op")
             # (a dispatch on the constant `isize::BITS` instead of `size_of::<isize>()` is folded for this target: its one live arm
             #  is the arm for 8 bytes)
-            arms_ = tr[2] if (tr[0] == "switch" and tag(tr[1]) == "call" and "size_of" in tr[1][1]) else ((8, tr),)
+            arms_ = tr[2] if (tr[0] == "switch" and any(tag(n_) == "call" and "size_of" in n_[1] for n_ in all_nodes(tr[1]))) else ((8, tr),)
             ok = True
             if ok:
                 for v, sub in arms_:
@@ -154,7 +154,7 @@ def check_C09(ctx, rep):
                         ok = False
         else:
             tr = H.tree_of(f, b, "none")
-            arms_ = tr[2] if (tr[0] == "switch" and tag(tr[1]) == "call" and "size_of" in tr[1][1]) else ((8, tr),)
+            arms_ = tr[2] if (tr[0] == "switch" and any(tag(n_) == "call" and "size_of" in n_[1] for n_ in all_nodes(tr[1]))) else ((8, tr),)
             ok = True
             if ok:
                 for v, sub in arms_:
